@@ -520,6 +520,7 @@ int KSI_Signature_replacePublicationRecord(KSI_Signature *sig, KSI_PublicationRe
 			KSI_pushError(sig->ctx, res, NULL);
 			goto cleanup;
 		}
+		newPubTlv = NULL;
 
 		if (sig->publication != NULL) {
 			KSI_PublicationRecord_free(sig->publication);
@@ -530,6 +531,8 @@ int KSI_Signature_replacePublicationRecord(KSI_Signature *sig, KSI_PublicationRe
 	res = KSI_OK;
 
 cleanup:
+
+	KSI_TLV_free(newPubTlv);
 
 	return res;
 }
